@@ -190,6 +190,7 @@ func Drive(e Engine, o DriverOpts) int {
 			from, to, stride = replayIdx, replayIdx+1, 1
 		}
 		part := 0
+		abnormal := 0
 		for from < to {
 			part++
 			base := filepath.Join(runDir, fmt.Sprintf("w%02d.p%03d", w, part))
@@ -279,6 +280,13 @@ func Drive(e Engine, o DriverOpts) int {
 				return
 			}
 			if cur < 0 {
+				return
+			}
+			abnormal++
+			if abnormal >= 6 {
+				// every abnormal end is already reported as a violation; the rest of this shard
+				// would mostly repeat it at the price of one CPU budget per case
+				addInconcl(fmt.Sprintf("worker %d: shard stopped after %d abnormal worker ends (each reported above); cases from %d on were not run", w, abnormal, cur+stride))
 				return
 			}
 			from = cur + stride
